@@ -133,4 +133,11 @@ silence, whatever the mailbox does meanwhile (a loop that restarts the clock on 
 steady stream of deliveries). Regenerated from /repo on every run. -/
 theorem idle_clock_counts_silence : Raven.Gen.idleClock = ((b!"idleSince"), 1, 0) := by decide
 
+/-- C20.13  a session that waits for the authentication backend waits for a bounded time: every HTTP client the services
+build (IMAP login, SASL) carries an overall `Timeout` — which covers the dial, the TLS handshake, the headers and the body —
+and nothing uses the package-level client, which has none. A session whose client has gone away therefore ends when its
+request does, and `Shutdown`, which waits for the sessions, returns. Regenerated from /repo on every run. -/
+theorem backend_requests_bounded :
+    Raven.Gen.httpClients = [((b!"auth.authenticateUser"), true), ((b!"sasl.Server.authenticate"), true)] := by decide
+
 end Raven.Props.C20
